@@ -193,7 +193,15 @@ func c17Hooks(xr *xssRoots, name string, hooks *absint.Hooks) {
 			if !e.ProveLE(st, r, absint.K(-1)) {
 				c := xr.minTerminator(hit.Org)
 				ok := e.ProveLE(st, length.AddK(1), hpos.AddK(int64(c)))
-				e.Check(st, fr, ret.Pos(), "O-eof", "a found candidate is given up only when no terminator fits behind it at "+where, ok, fmt.Sprintf("the token runs to the end of the input although a candidate terminator may have been found at %s and it is not shown that fewer than %d bytes (the shortest accepted terminator) remain", e.LinStr(hpos), c))
+				if !ok {
+					// or: the bytes behind the candidate were examined up to the very end of the input
+					if lr, has := e.CellOf(st, ghostScan, "lastRead"); has {
+						if lri, isI := lr.(absint.IntV); isI {
+							ok = e.ProveLE(st, length, lri.L.AddK(1)) && e.ProveLE(st, hpos, lri.L)
+						}
+					}
+				}
+				e.Check(st, fr, ret.Pos(), "O-eof", "a found candidate is given up only when no terminator fits behind it at "+where, ok, fmt.Sprintf("the token runs to the end of the input although a candidate terminator may have been found at %s and it is shown neither that fewer than %d bytes (the shortest accepted terminator) remain nor that the bytes behind the candidate were examined up to the end of the input", e.LinStr(hpos), c))
 			}
 		default:
 			e.Check(st, fr, ret.Pos(), "O-end", "token ends at the accepted terminator or at end of input at "+where, false, fmt.Sprintf("token end %s is neither the position of the terminator found (%s) nor the end of the input: length measured from the wrong base?", e.LinStr(tokEnd), e.LinStr(hpos)))
@@ -268,7 +276,7 @@ func checkC17(c *Ctx) *core.Result {
 	// T-count: steps that emit without moving the cursor must not form a cycle
 	tcount(xr, r, c)
 	r.Extra["roots"] = xr.describe()
-	r.Explanation = e3Explain + " C17 analyses every HTML state function as a root from an arbitrary tokenizer state satisfying the interface invariant plus per-state entry facts inferred Houdini-style over all transitions (pos ≥ 1, pos < len, prevEnd ≤ pos, prevEnd < pos). At every return that reports a token: T-span (token inside the input), T-order (token starts at or after the end of the previous token), and for tokens produced by a terminator search O-first (the first search starts at the token start), O-resume (after a rejected candidate the search resumes at candidate + 1), O-end (the token ends exactly at the accepted terminator, or at end of input), O-eof (giving up a found candidate needs proof that fewer bytes remain than the shortest accepted terminator of that search), O-next (cursor behind the terminator), O-match (closing quote = opening quote where known). T-count: the transitions that emit a token without advancing the cursor form an acyclic graph, so the number of tokens is at most (L+1)·(|s|+1) with L the longest such chain. NOT decided: the exact |s|+1 constant, the content of multi-byte terminators (which bytes follow the first), the NUL tolerance of comments."
+	r.Explanation = e3Explain + " C17 analyses every HTML state function as a root from an arbitrary tokenizer state satisfying the interface invariant plus per-state entry facts inferred Houdini-style over all transitions (pos ≥ 1, pos < len, prevEnd ≤ pos, prevEnd < pos). At every return that reports a token: T-span (token inside the input), T-order (token starts at or after the end of the previous token), and for tokens produced by a terminator search O-first (the first search starts at the token start), O-resume (after a rejected candidate the search resumes at candidate + 1), O-end (the token ends exactly at the accepted terminator, or at end of input), O-eof (giving up a found candidate needs proof that fewer bytes remain than the shortest accepted terminator of that search, or that the bytes behind the candidate were examined up to the end of the input), O-next (cursor behind the terminator), O-match (closing quote = opening quote where known). T-count: the transitions that emit a token without advancing the cursor form an acyclic graph, so the number of tokens is at most (L+1)·(|s|+1) with L the longest such chain. NOT decided: the exact |s|+1 constant, the content of multi-byte terminators (which bytes follow the first), the NUL tolerance of comments."
 	r.Trusted = []string{"go/ssa", "E3 transfer functions and library models (search results)", "in-checker simplex", "state graph extraction (C13)"}
 	return r
 }
